@@ -182,6 +182,15 @@ pub fn member_mode(v: &Value, t: &DataType, mode: Mode) -> Option<bool> {
             let m = d.and_hms_opt(0, 0, 0)?;
             Some(dt.iter().any(|[a, b]| a <= &m && &m <= b))
         }
+        // a date is the instant at midnight of that day: another instant is no date
+        (Value::DateTime(d), DataType::Date(dt)) => {
+            if d.time() != chrono::NaiveTime::MIN {
+                Some(false)
+            } else {
+                let day = d.date();
+                Some(dt.iter().any(|[a, b]| a <= &day && &day <= b))
+            }
+        }
         (Value::Duration(d), DataType::Duration(dt)) => {
             Some(dt.iter().any(|[a, b]| a <= &**d && &**d <= b))
         }
